@@ -194,8 +194,6 @@ type genChooser struct {
 	nackSeen map[string]bool
 	cutPct   int
 	nackPct  int
-	noSplit  bool // generator restriction (known-finding exclusion hooks)
-	noCut    bool
 }
 
 func (c *genChooser) act(s, o int, path string, depth int) Act {
@@ -204,7 +202,7 @@ func (c *genChooser) act(s, o int, path string, depth int) Act {
 		return a
 	}
 	kind := kindTable[uniform(c.t, "kind "+k, len(kindTable))]
-	if kind == kSplit && (depth >= 2 || c.noSplit) {
+	if kind == kSplit && depth >= 2 {
 		// bound the piece tree: at most two levels of splitting (<= 9 pieces per origin)
 		kind = kPass
 	}
@@ -226,7 +224,7 @@ func (c *genChooser) cut(s, o int, path string) bool {
 		return c.sc.Cuts[k]
 	}
 	c.cutSeen[k] = true
-	if c.noCut || c.cutPct == 0 {
+	if c.cutPct == 0 {
 		return false
 	}
 	if chance(c.t, "cut "+k, c.cutPct) {
@@ -587,12 +585,7 @@ func evalModel(sc *Script, ch chooser) *model {
 // Generator
 // ---------------------------------------------------------------------------
 
-type genOpts struct {
-	// exclusions for known findings (see NOTES.md); each closes exactly one shape
-	exclude map[string]bool
-}
-
-func genScript(t *rapid.T, opts genOpts) (*Script, *model) {
+func genScript(t *rapid.T) (*Script, *model) {
 	sc := &Script{Acts: map[string]Act{}, Cuts: map[string]bool{}, Nacks: map[string]bool{}, DLQFail: map[string]bool{}, SinkFrom: -1}
 	sc.N = 1 + uniform(t, "n", 12)
 	nd := []int{1, 1, 1, 1, 2, 2, 2, 3, 3}[uniform(t, "dests", 9)]
